@@ -27,13 +27,15 @@ def binds_param(F, b, param_pred, depth=4):
 def run(ctx):
     F = ctx.facts("dbg")
     wo = [b for b in F.all_bodies(CR) if c02.in_scope(b) and any(c.name == "push_integer" for c in b.calls()) and
-          any("core::option::Option<u64>" == b.locals[i]["ty"] for i in range(1, b.arg_count + 1)) and any("Observation" in b.locals[i]["ty"] and not b.locals[i]["ty"].startswith("impl") for i in range(1, b.arg_count + 1))]
+          any(b.locals[i]["ty"] in ("core::option::Option<u64>", "u64") for i in range(1, b.arg_count + 1)) and any("Observation" in b.locals[i]["ty"] and not b.locals[i]["ty"].startswith("impl") for i in range(1, b.arg_count + 1))]
     wo = [b for b in wo if sum(1 for i in range(1, b.arg_count + 1) if "PrefixedStringBuf" in b.locals[i]["ty"]) >= 2 and
           not any("Iterator" in b.locals[i]["ty"] for i in range(1, b.arg_count + 1))]
     ctx.floor("R03.1", "observation writers (two buffers + observation + multiplicity)", len(wo), 1)
     for b in wo:
         pr = Prov(b, multi={"core::option::Option::<T>::unwrap_or": (0, 1)})
-        mult = [i for i in range(1, b.arg_count + 1) if b.locals[i]["ty"] == "core::option::Option<u64>"][0]
+        # the weight parameter: the optional multiplicity itself, or (unwrapped by the caller with the default 1) a plain u64
+        mult = ([i for i in range(1, b.arg_count + 1) if b.locals[i]["ty"] == "core::option::Option<u64>"] or
+                [i for i in range(1, b.arg_count + 1) if b.locals[i]["ty"] == "u64"])[0]
         bufs = [i for i in range(1, b.arg_count + 1) if "PrefixedStringBuf" in b.locals[i]["ty"]]
         counts = bufs[1]
         n = 0
@@ -148,26 +150,70 @@ def run(ctx):
                 return any(op_local(a) is not None and "PrefixedStringBuf" in b.local_ty(op_local(a)) and
                            any(y[0] == "arg" and y[1] == defbuf for y in pr.operand(a)) for a in x.args)
             return False
-        inner = [c for c in b.calls() if any(sb.crate == CR for sb in local_callee_bodies(F, c)) and "Result<(), " in (b.local_ty(c.dest["l"]) if not c.dest.get("p") else "")
+        def _dty(c):
+            return b.local_ty(c.dest["l"]) if not c.dest.get("p") else ""
+        inner = [c for c in b.calls() if any(sb.crate == CR for sb in local_callee_bodies(F, c)) and ("Result<(), " in _dty(c) or _dty(c) == "bool")
                  and any(any(x[0] == "arg" and x[1] == valbuf for x in pr.operand(a)) for a in c.args)]
         ctx.check(len(inner) == 1, "R03.3", fnkey(b) + "#single-value-write", loc(b), "expected one fallible value write, found %d" % len(inner))
+        from rules.c08 import _ret_assigns, gate_switch_value
+
+        def entry_len_truncates(bd, bufarg, before=None):
+            """truncate calls on parameter `bufarg` of `bd` back to a length that was read before anything was appended to it
+            (`before`: a block the length read must precede, for the caller's form)"""
+            pr_ = Prov(bd)
+            dom_ = bd.dominators()
+            onbuf = lambda x: bool(x.args) and any(y[0] == "arg" and y[1] == bufarg for y in pr_.operand(x.args[0]))
+            appends = [x for x in bd.calls() if onbuf(x) and x.name in ("push", "push_raw_str", "json_string", "push_integer", "push_str")]
+            out = []
+            for x in bd.calls():
+                if x.name != "truncate" or not onbuf(x) or len(x.args) < 2:
+                    continue
+                lens = [y[1] for y in pr_.operand(x.args[1]) if y[0] == "call" and (bd.term(y[1]).get("callee") or {}).get("name") == "len"]
+                for lb in lens:
+                    if before is not None:
+                        if dominates(bd, lb, before, dom_) and lb != before:
+                            out.append(x)
+                    elif all(dominates(bd, lb, ap.bb, dom_) and lb != ap.bb for ap in appends):
+                        out.append(x)
+            return out
         for c in inner:
-            err_t = None
-            for sw, tg, oth in switch_on_call_result(b, c):
-                err_t = tg.get(1)
-                ok_t = tg.get(0, oth)
             key = fnkey(b)
-            if err_t is None:
+            sws = switch_on_call_result(b, c)
+            if not sws:
                 ctx.bad("R03.3", key + "#skip-branch", loc(b, c.bb), "the skipped outcome of the value write is not branched on")
                 continue
-            tr = [x for x in b.calls() if x.name == "truncate" and x.bb in b.reachable(err_t) and any(y[0] == "arg" and y[1] == valbuf for y in pr.operand(x.args[0]))]
-            good_tr = []
-            for x in tr:
-                lo = pr.operand(x.args[1])
-                lens = [y[1] for y in lo if y[0] == "call" and (b.term(y[1]).get("callee") or {}).get("name") == "len"]
-                if any(dominates(b, lb, c.bb, dom) and lb != c.bb for lb in lens):
-                    good_tr.append(x)
-            ctx.check(bool(good_tr) and b.must_pass([x.bb for x in good_tr], start=err_t), "R03.3", key + "#skipped-value-rolled-back", loc(b, err_t),
+            sw, tg, oth = sws[-1]
+            # which outcome means `no value was written`: the one the callee returns after rolling the buffer back itself, else the
+            # failure variant of its Result, else (a bool without rollback inside) the side on which this body rolls back
+            vi = [ai for ai, a in enumerate(c.args) if any(x[0] == "arg" and x[1] == valbuf for x in pr.operand(a))][0]
+            skip_outcome, callee_rolls = None, False
+            for sb in local_callee_bodies(F, c):
+                if sb.crate != CR:
+                    continue
+                trs = entry_len_truncates(sb, vi + 1)
+                outs = {v for x in trs for j in sb.reachable(x.bb) for v in _ret_assigns(sb, j)}
+                if len(outs) == 1 and None not in outs:
+                    skip_outcome = next(iter(outs))
+                    sdom = sb.dominators()
+                    # every return of that outcome comes after the rollback
+                    callee_rolls = all(any(dominates(sb, x.bb, j, sdom) for x in trs) for j in sb.live_blocks() if skip_outcome in _ret_assigns(sb, j))
+            if skip_outcome is None and "Result<" in _dty(c):
+                skip_outcome = ("variant", "Err")
+            err_t = None
+            if skip_outcome is not None:
+                sv = gate_switch_value(b, sw, skip_outcome)
+                err_t = tg.get(sv, oth) if sv is not None else None
+            else:
+                sides = [x for x in b.succ(sw) if b.term(x)["k"] != "unreachable"]
+                rolled = [x for x in sides if (lambda tr_: tr_ and b.must_pass([y.bb for y in tr_], start=x))([y for y in entry_len_truncates(b, valbuf, before=c.bb) if y.bb in b.reachable(x)])]
+                err_t = rolled[0] if len(rolled) == 1 else None
+            if err_t is None:
+                ctx.bad("R03.3", key + "#skipped-value-rolled-back", loc(b, c.bb),
+                        "cannot tell which outcome of the value write means `every observation was skipped`: no side rolls the value buffer back "
+                        "to the length recorded before the write (a member name without value would stay in the record)")
+                continue
+            good_tr = [x for x in entry_len_truncates(b, valbuf, before=c.bb) if x.bb in b.reachable(err_t)]
+            ctx.check(callee_rolls or (bool(good_tr) and b.must_pass([x.bb for x in good_tr], start=err_t)), "R03.3", key + "#skipped-value-rolled-back", loc(b, err_t),
                       "when every observation of a metric is skipped the value buffer is not truncated back to the length recorded before the "
                       "write: a member name without value stays in the record")
             defw = [x for x in b.calls() if x.bb in b.reachable(err_t) and writes_def(x, ("push", "push_raw_str", "json_string", "push_integer"))]
@@ -241,7 +287,10 @@ def run(ctx):
                       "encoded namespace + copy of the first directive)")
         # the iteration source is namespaces[1..]
         pr = Prov(b)
+        # `namespaces[1..]`, or `namespaces.iter().skip(1)`: everything but the first namespace
+        ns_prov = Prov(b, extra_adapters=("core::slice::<impl [T]>::iter", "core::iter::traits::collect::IntoIterator::into_iter", "core::ops::deref::Deref::deref"))
         rng = [c for c in b.calls() if c.is_trait_method("Index", "index") and any(x[0] == "arg" and "namespaces" in x[2] for x in pr.operand(c.args[0]))]
+        rng += [c for c in b.calls() if c.is_trait_method("Iterator", "skip") and any(x[0] == "arg" and "namespaces" in x[2] for x in ns_prov.operand(c.args[0]))]
         starts = []
         for c in rng:
             o = pr.operand(c.args[1])
@@ -452,7 +501,14 @@ def thread_param(F, b, p, depth):
         return False, "no caller passes the multiplicity to %s" % b.path
     for cs in callers:
         cb = cs.body
-        o = Prov(cb).operand(cs.args[p - 1])
+        # `multiplicity.unwrap_or(1)`: an unsampled entry counts once; any other default is a made-up weight
+        raw = Prov(cb).operand(cs.args[p - 1])
+        for x in raw:
+            if x[0] == "call" and (cb.term(x[1]).get("callee") or {}).get("name") == "unwrap_or":
+                dflt = op_const(cb.term(x[1])["args"][1]) or {}
+                if dflt.get("int") != 1:
+                    return False, "%s unwraps the multiplicity with default %s (an unsampled entry must count once)" % (cb.path, dflt.get("int", "?"))
+        o = Prov(cb, extra_adapters=("core::option::Option::<T>::unwrap_or",)).operand(cs.args[p - 1])
         o = {x for x in o if x[0] != "via"}
         if any(x[0] == "const" for x in o) or any(x[0] == "agg" for x in o):
             return False, "%s passes a constant multiplicity to %s" % (cb.path, b.name)
